@@ -1,6 +1,7 @@
 package props
 
 import (
+	"time"
 	"encoding/json"
 	"flag"
 	"fmt"
@@ -215,7 +216,22 @@ func safely[C any](check func(C) (Outcome, error), c C) (out Outcome, err error)
 }
 
 // judge records one executed case and returns the failure (nil if none / known).
+// Soft time budget: the driver tells the shard how long it may run (VERIF_SOFT_DEADLINE_S, well below the hard go-test
+// deadline). Once it has passed, generated cases are counted as skipped instead of evaluated, so a slow or busy machine
+// lowers the number of cases (reported in the evidence, checked against the shard's floor by the driver) instead of
+// killing the process and losing everything it found. The budget never decides a verdict.
+var (
+	processStart = time.Now()
+	softDeadline = time.Duration(envInt("VERIF_SOFT_DEADLINE_S", 0)) * time.Second
+)
+
+func softExpired() bool { return softDeadline > 0 && replayIn == "" && time.Since(processStart) > softDeadline }
+
 func judge[C any](id string, c C, check func(C) (Outcome, error), useJournal bool) (skip string, fail error) {
+	if softExpired() {
+		rec(id).Skip("time budget reached: case generated but not evaluated")
+		return "", nil
+	}
 	cj, _ := json.Marshal(c)
 	if useJournal {
 		writeJournal(id, cj)
